@@ -251,7 +251,70 @@ pub fn gen(rng: &mut Rng, thorough: bool, out: &mut Sink) {
                 }
             }
         }
+        // specials NOT listed in the order `Ord` would give them: look-alikes of different kinds whose scores run
+        // against their kinds, a second unknown-kind special, a shuffled list. The listed order is the split
+        // priority (and decides which unknown special the encoder uses); a rebuilt tokenizer must keep it.
+        if rng.chance(1, 2) && !def.specials.iter().any(|s| s.bytes.starts_with(b"<n>")) {
+            let ext = rng.chance(1, 2);
+            let pri = SpecialToken { id: 9_300_000, bytes: b"<n>".to_vec(), kind: SpecialTokenKind::Priority, ident: None, score: 0.0, extract: ext };
+            let ctl = SpecialToken { id: 9_300_001, bytes: b"<n>x".to_vec(), kind: SpecialTokenKind::Control, ident: None, score: 1.0, extract: ext };
+            if rng.chance(1, 2) {
+                def.specials.push(pri);
+                def.specials.push(ctl);
+            } else {
+                def.specials.push(ctl);
+                def.specials.push(pri);
+            }
+        }
+        if rng.chance(1, 5) && !def.specials.iter().any(|s| s.bytes == b"<unk2>") {
+            let at = rng.below(def.specials.len() + 1);
+            def.specials.insert(at, SpecialToken { id: 9_300_002, bytes: b"<unk2>".to_vec(), kind: SpecialTokenKind::Unknown, ident: None, score: -1.0, extract: false });
+        }
+        if rng.chance(1, 3) {
+            crate::gen::shuffle(rng, &mut def.specials);
+        }
         let bytes = def.to_vec();
+        // behaviour: the tokenizer rebuilt from the serialized form and the one rebuilt from its own export encode
+        // and decode like the original, on texts that contain the specials' texts (nested ones included)
+        {
+            let mut texts: Vec<String> = (0..8).map(|_| crate::enc::text_for_pub(rng, &def)).collect();
+            texts.push("a<n>xb <n> <n><n>x".to_string());
+            texts.push("語<unk2>語 q".to_string());
+            // the serialization variants carry padding amounts near u32::MAX: decoding would build gigabytes
+            let huge_decode = def.config.decoding.iter().any(|d| matches!(d, Decoding::Extend { left, right, .. } if *left > 1000 || *right > 1000));
+            let alike = guarded(|| {
+                let t1 = Kitoken::from_definition(def.clone()).ok()?;
+                let t2 = Kitoken::from_slice(&bytes).ok()?;
+                let t3 = Kitoken::from_definition(t1.to_definition()).ok()?;
+                for text in &texts {
+                    for s in [false, true] {
+                        let a = t1.encode(text, s).ok();
+                        if a != t2.encode(text, s).ok() {
+                            return Some(Err(format!("serialized form differs on {} specials={}", hex(text.as_bytes()), s)));
+                        }
+                        if a != t3.encode(text, s).ok() {
+                            return Some(Err(format!("exported definition differs on {} specials={}", hex(text.as_bytes()), s)));
+                        }
+                        if let Some(ids) = a.filter(|_| !huge_decode) {
+                            let d1 = t1.decode(&ids, s).ok();
+                            if d1 != t2.decode(&ids, s).ok() || d1 != t3.decode(&ids, s).ok() {
+                                return Some(Err(format!("decoding differs on {} specials={}", hex(text.as_bytes()), s)));
+                            }
+                        }
+                    }
+                }
+                Some(Ok(()))
+            });
+            match alike {
+                Some(Some(Ok(()))) => {
+                    out.push(format!("IMPLEQ rebuilt-behaves-alike gen{} :: OK", k));
+                    out.count("rebuilt_tokenizers_compared");
+                }
+                Some(Some(Err(why))) => out.push(format!("IMPLEQ rebuilt-behaves-alike gen{} {} :: DIFF {}", k, hex(&bytes), why)),
+                Some(None) => out.count("rebuilt_defs_failed_init"),
+                None => out.push(format!("IMPLEQ rebuilt-behaves-alike gen{} {} :: PANIC", k, hex(&bytes))),
+            }
+        }
         // the export keeps every entry: compared with the definition the tokenizer was built from, as sets
         // (independent of the order the export chooses)
         let kept = guarded(|| {
